@@ -148,6 +148,7 @@ def run(F, chk):
             ra.ok(key, ss.where(ins[0]), "a newly opened backend stream arms the writer on every path")
         else:
             ra.violation(key, ss.where(ins[0]), "a new backend stream is registered and a path returns without arming the writer: its request is never sent")
+    chunk_size_rule(F, chk)
     # ---------------- R-C01-b -----------------------------------------------------
     rb = chk.rule("R-C01-b", "T8", "TLS scalar and vectored write paths agree", floor=5)
     sw, sv = F.body(FRT + "socket_write"), F.body(FRT + "socket_write_vectored")
@@ -303,3 +304,40 @@ def chk_close_allow(total):
     import json, os
     t = json.load(open(os.path.join(os.path.dirname(os.path.abspath(__file__)), "..", "tables", "C01.json")))
     return t["ready_close_unguarded_max"]
+
+
+def chunk_size_rule(F, chk):
+    """R-C01-g: a zero-size chunk is the chunked-encoding terminator, so a ChunkHeader may only be emitted behind
+    `n > 0` for the very n that is rendered as the chunk size."""
+    r = chk.rule("R-C01-g", "T5+T12", "chunk header emitted only for a non-zero size, tested on the value that is rendered", floor=1)
+    n = 0
+    for b in F.grep('"var":"ChunkHeader"'):
+        if not b.path.startswith(MUX) or b.derived:
+            continue
+        for bi, si, s in b.stmts():
+            rv = s.get("rv")
+            if not (rv and rv["k"] == "agg" and rv.get("ak") == "adt" and rv["adt"].endswith("::Block") and rv["var"] == "ChunkHeader"):
+                continue
+            sl = guards.slice_of_operand(b, rv["ops"][0])
+            if not any(c.endswith("Write::write_fmt") or c.endswith("fmt::format") or "itoa" in c for c in sl["callees"]):
+                continue    # a ChunkHeader copied from an existing block (template), not rendered from a size
+            n += 1
+            r.fn(b.path)
+            edges = []
+            for sb, f, t, atom in guards.bool_switches(b):
+                if atom[0] != "cmp":
+                    continue
+                for tgt in (f, t):
+                    rel = lib.relation_on_edge(b, sb, tgt)
+                    if not rel:
+                        continue
+                    op, sa, sbb, _ = rel
+                    if op in ("Gt", "Ne") and any(str(c).startswith("0_") for c in sbb["consts"]):
+                        roots = {l for l in sa["locals"] if b.local_name(l)}
+                        if roots & {l for l in sl["locals"] if b.local_name(l)}:
+                            edges.append((sb, tgt))
+            key = "%s|ChunkHeader#%d" % (b.path, n)
+            if edges and lib.guarded_by(b, bi, edges):
+                r.ok(key, b.where(bi, si), "behind `size > 0` on the value rendered into the chunk header")
+            else:
+                r.violation(key, b.where(bi, si), "a chunk header can be emitted without a `> 0` test on the size that is rendered into it: a zero-size chunk terminates the chunked body early (truncation)")
